@@ -135,6 +135,19 @@ def main(ctx, args):
                 for n in csplits:
                     cases.append(dict(base, id=f"{pid_}|{be}|{n}x1", events=[[n, 0]]))
                 cases.append(dict(base, id=f"{pid_}|{be}|3x2+5", events=[[3, 0], [3, 0], [5, 0]]))
+        # fourth family: corpus/C06/*.json, minimised witnesses of repaired findings (W1: array handles kept in state cells)
+        cdir = os.path.join(VERIF, "corpus", "C06")
+        for fn in sorted(os.listdir(cdir)) if os.path.isdir(cdir) else []:
+            if not fn.endswith(".json"):
+                continue
+            r = json.load(open(os.path.join(cdir, fn)))
+            pid_ = "corpus:" + fn[:-5]
+            for be in ("vm", "wasm"):
+                base = dict(backend=be, srcs=[r["src"]], times=N, inputs=[[0.5]] * N, prog_id=pid_)
+                cases.append(dict(base, id=f"{pid_}|{be}|base", events=[]))
+                for n in range(0, N + 1):
+                    cases.append(dict(base, id=f"{pid_}|{be}|{n}x1", events=[[n, 0]]))
+                cases.append(dict(base, id=f"{pid_}|{be}|3x2+5", events=[[3, 0], [3, 0], [5, 0]]))
     res = run_hist(cases)
     pred = predicted_streams(cases, N)
     failures, stats, nontriv, samples = [], collections.Counter(), set(), []
@@ -158,9 +171,9 @@ def main(ctx, args):
             if bst.split(" ")[0] not in ("compile-error",):
                 pass  # crashes of the uninterrupted run are C03's business
             continue
-        if c["backend"] == "wasm" and "invalid array ID" in st and any(k.get("id") == "W1" for k in known):
-            stats["known_W1_histories"] += 1      # an array handle kept in a state cell does not survive the WASM engine swap
-        elif not st.startswith("ok") or "refused" in st or "compile-error" in st:
+        # (former finding W1 -- an array handle kept in a state cell did not survive the WASM engine swap -- is repaired:
+        # `invalid array ID` is a failure like any other)
+        if not st.startswith("ok") or "refused" in st or "compile-error" in st:
             failures.append((c, f"swap run failed: {st[:200]}", bout, out))
         elif out != bout:
             first = next((i for i, (a, b) in enumerate(zip(out.split(";"), bout.split(";"))) if a != b), -1)
